@@ -190,14 +190,14 @@ def decide(dotlist, cm, fmt):
                 out[k] = 1 if t < 0 else 0
             else:
                 out[k] = 1 if t > 0 else 0
-        return out, np.array([float(d) for d in dotlist])
+        return out, np.array([float(d) for d in dotlist]), float(cm)
     t = LD(1) - dotlist - LD(abs(float(cm)))
     if cm >= 0:
         out[:] = (t < 0)
     else:
         out[:] = (t > 0)
     out[np.abs(t) <= LD(BAND)] = -1
-    return out, dotlist.astype(np.float64)
+    return out, dotlist.astype(np.float64), float(cm)
 
 
 _dot_cache = {}
@@ -219,7 +219,7 @@ def std_decision(centre_name, cm, fmt):
 def and3(decs, npts):
     any0 = np.zeros(npts, dtype=bool)
     anyb = np.zeros(npts, dtype=bool)
-    for d, _dot in decs:
+    for d, _dot, _cm in decs:
         any0 |= (d == 0)
         anyb |= (d == -1)
     return np.where(any0, 0, np.where(anyb, -1, 1)).astype(np.int8)
@@ -231,11 +231,14 @@ def used_indices(n, use, ncapsarg):
 
 
 def near_tag(decs, k):
-    """Trigger predicate: is point k at the centre / antipode of one of the given caps (|x.p| within 1e-15 of 1)?"""
+    """Trigger predicate for a point wrongly reported outside: does point k sit at the centre of a used cap with
+    cm >= 0 or at the antipode of a used cap with cm < 0 (|x.p| within 1e-15 of 1, where x.p can round beyond 1)?"""
     tags = set()
-    for _d, dot in decs:
-        if abs(dot[k]) >= 1.0 - NEAR1:
-            tags.add('point-at-cap-centre' if dot[k] > 0 else 'point-at-cap-antipode')
+    for _d, dot, cm in decs:
+        if dot[k] >= 1.0 - NEAR1 and cm >= 0:
+            tags.add('point-at-centre-of-cap')
+        elif dot[k] <= -1.0 + NEAR1 and cm < 0:
+            tags.add('point-at-antipode-of-negative-cap')
     return '+'.join(sorted(tags))
 
 
@@ -387,7 +390,7 @@ def _membership(entry, caps, use, ncapsarg, fmt, pts, decs, ctor=None):
     out = []
     seen = set()
     for k in bad:
-        tag = near_tag([decs[i] for i in used], k)
+        tag = near_tag([decs[i] for i in used], k) if (exp[k] == 1 and not got[k]) else ''
         sig = '%s:membership' % entry + (':' + tag if tag else '')
         if sig in seen:
             continue
@@ -458,7 +461,7 @@ def _window_check(fmt, specs, polys, ncapsarg, pfmt, pts, exp, ref, alldecs):
     if len(bad):
         seen = set()
         for k in bad:
-            tag = near_tag(alldecs, k)
+            tag = near_tag(alldecs, k) if (idx[k] == -1 or idx[k] > exp[k] >= 0) else ''
             sig = 'is_in_window:first-match-index:' + (tag if tag else fmt)
             if sig in seen:
                 continue
@@ -526,7 +529,7 @@ def check_case(case):
                                       for c in caps)
             if not ok:
                 raise ValueError('not an exact-boundary case')
-            decs = [(np.ones(len(pts), dtype=np.int8), np.zeros(len(pts))) for _c in caps]
+            decs = [(np.ones(len(pts), dtype=np.int8), np.zeros(len(pts)), 1.0) for _c in caps]
         v, _exp = _membership(entry, caps, case.get('use', 1), case.get('ncaps', 0), fmt, pts, decs, case.get('ctor'))
         if case.get('exact'):
             v = [(s.replace(':membership', ':membership:exact-boundary'), m, k) for s, m, k in v]
@@ -647,7 +650,7 @@ def run_small(acc):
     for (n, v, _rd) in axes:
         pts = np.array([w for (_m, w, _r) in axes if sum(a * b for a, b in zip(v, w)) == 0.0], dtype=np.float64)
         caps = [[v[0], v[1], v[2], 1.0]]
-        ones = (np.ones(len(pts), dtype=np.int8), np.zeros(len(pts)))
+        ones = (np.ones(len(pts), dtype=np.int8), np.zeros(len(pts)), 1.0)
         for entry, layer in (('is_in_cap', 'cap'), ('is_in_polygon', 'poly')):
             viol, _exp = _membership(entry, caps, 1, 0, 'xyz', pts, [ones])
             viol = [(s.replace(':membership', ':membership:exact-boundary'), m, k) for s, m, k in viol]
